@@ -546,6 +546,13 @@ func taskScheduleHandler() {
 			}
 			t := e.Value.(*Task) //nolint:forcetypeassert // Can only be *Task.
 
+			// The schedule may have changed since the timer was set:
+			// only act on a task that is actually due.
+			if time.Now().Before(t.executeAt) {
+				scheduleLock.Unlock()
+				continue
+			}
+
 			// process Task
 			if t.overtime {
 				// already queued and maxDelay reached
